@@ -55,6 +55,7 @@ def units(tier):
     lay = layered_specs()[:: (2 if tier == "quick" else 1)]
     us += [{"specs": [s.to_json() for s in ch], "layered": True, "seed": seed() * 1000 + 500 + i,
             "maxtok": 4 if tier == "quick" else 5} for i, ch in enumerate(chunks(lay, 18))]
+    us.append({"kind": "named-actions", "specs": []})
     return us
 
 
@@ -162,8 +163,12 @@ def modularise(spec, rng, force=None):
                     content[F].append(("%s.%s" % (home[n], n), [("t", t) for t in rhs]))
                 break
     files = {}
+    prng = random.Random(rng.random())
     for f in used_files:
-        lines = ["import '%s.pg' as %s;" % (g_, g_) for g_ in imports[f]]
+        # the same file spelled in different ways (a nested import path is relative to the importing file
+        # and is canonicalised before the registry of loaded files is consulted)
+        lines = ["import '%s%s.pg' as %s;" % (prng.choice(["", "", "./", "sub/../", "sub/./../"]), g_, g_)
+                 for g_ in imports[f]]
         by = {}
         for l, items in content[f]:
             by.setdefault(l, []).append(" ".join(("'%s'" % spec.terms[it[1]][1]) if it[0] == "t" else it[1]
@@ -285,10 +290,79 @@ def n_reachable(flat):
     return 1 + sum(1 for l, r in flat.rules if l in reach_nt)
 
 
+# actions bound by name (@name in the grammar, <file>_actions.py next to it) in files imported one, two and
+# three levels deep, with and without aliases; the flattened grammar uses the same annotations and module
+NAMED_ACTIONS_PY = ("from parglare import get_collector\naction = get_collector()\n\n\n@action\ndef toint(_, value):\n"
+                    "    return int(value)\n\n\n@action\ndef tonum(_, nodes):\n"
+                    "    return ('num', -nodes[1] if len(nodes) == 2 else nodes[0])\n\n\n@action\ndef tolist(_, nodes):\n"
+                    "    return ('list', nodes[0])\n")
+NAMED_LEAF = "@tonum\nNum: DIGITS | '-' DIGITS;\n\nterminals\n@toint\nDIGITS: /\\d+/;\n"
+NAMED_CASES = [
+    # (files, flattened grammar)
+    ({"root.pg": "import 'leaf.pg' as lf;\nS: lf.Num+;\n", "leaf.pg": NAMED_LEAF},
+     "S: lf_Num+;\n@tonum\nlf_Num: lf_DIGITS | '-' lf_DIGITS;\nterminals\n@toint\nlf_DIGITS: /\\d+/;\n"),
+    ({"root.pg": "import 'mid.pg';\nS: mid.List;\n", "mid.pg": "import 'leaf.pg' as lf;\n@tolist\nList: lf.Num+;\n",
+      "leaf.pg": NAMED_LEAF},
+     "S: mid_List;\n@tolist\nmid_List: mid_lf_Num+;\n@tonum\nmid_lf_Num: mid_lf_DIGITS | '-' mid_lf_DIGITS;\n"
+     "terminals\n@toint\nmid_lf_DIGITS: /\\d+/;\n"),
+    ({"root.pg": "import 'top.pg' as t;\nS: t.Wrap;\n", "top.pg": "import 'mid.pg' as m;\nWrap: m.List;\n",
+      "mid.pg": "import 'leaf.pg';\n@tolist\nList: leaf.Num+;\n", "leaf.pg": NAMED_LEAF},
+     "S: t_Wrap;\nt_Wrap: t_m_List;\n@tolist\nt_m_List: t_m_leaf_Num+;\n"
+     "@tonum\nt_m_leaf_Num: t_m_leaf_DIGITS | '-' t_m_leaf_DIGITS;\nterminals\n@toint\nt_m_leaf_DIGITS: /\\d+/;\n"),
+]
+
+
+def run_named_actions(res):
+    import itertools
+    st = res["stats"]
+    for files, flat in NAMED_CASES:
+        d = tempfile.mkdtemp(prefix="pgverif-c20a-")
+        try:
+            os.mkdir(os.path.join(d, "flat"))
+            for name, text in files.items():
+                open(os.path.join(d, name), "w").write(text)
+                if name != "root.pg":
+                    open(os.path.join(d, name[:-3] + "_actions.py"), "w").write(NAMED_ACTIONS_PY)
+            open(os.path.join(d, "flat", "flat.pg"), "w").write(flat)
+            open(os.path.join(d, "flat", "flat_actions.py"), "w").write(NAMED_ACTIONS_PY)
+            case0 = {"files": files, "flattened": flat, "actions": "toint, tonum, tolist in <file>_actions.py"}
+            try:
+                pm = Parser(Grammar.from_file(os.path.join(d, "root.pg")))
+                pf = Parser(Grammar.from_file(os.path.join(d, "flat", "flat.pg")))
+            except Exception as e:
+                res["violations"].append({"kind": "modular-grammar-with-named-actions-rejected", "case": case0,
+                                          "observed": type(e).__name__ + ": " + str(e)[:120]})
+                continue
+            st["modular_grammars"] += 1
+            for n in range(1, 5):
+                for toks in itertools.product(["1", "23", "-"], repeat=n):
+                    text = " ".join(toks)
+
+                    def run(p):
+                        try:
+                            return ("ok", repr(p.parse(text)))
+                        except parglare.exceptions.ParglareError as e:
+                            return ("error", type(e).__name__)
+                    a, b = run(pm), run(pf)
+                    res["evaluations"] += 1
+                    st["comparisons"] += 1
+                    if a[0] == "ok":
+                        res["nontrivial"].append(h16([sorted(files.items()), text]))
+                    if a != b:
+                        res["violations"].append({"kind": "imported-grammar-result-differs-from-flattened-grammar",
+                                                  "case": dict(case0, input=text), "observed": list(a), "expected": list(b)})
+                        break
+        finally:
+            shutil.rmtree(d, ignore_errors=True)
+    return res
+
+
 def run_unit(u):
     res = {"evaluations": 0, "nontrivial": [], "samples": [], "violations": [], "disagreements": [],
            "stats": {"modular_grammars": 0, "features": {}, "comparisons": 0, "build_errors": {},
                      "override_deviations_predicted": 0, "ignore_case": 0}}
+    if u.get("kind") == "named-actions":
+        return run_named_actions(res)
     rng = random.Random(u["seed"])
     st = res["stats"]
     for sj in u["specs"]:
@@ -301,6 +375,7 @@ def run_unit(u):
             ic = rng.random() < 0.25
             d = tempfile.mkdtemp(prefix="pgverif-c20-")
             try:
+                os.mkdir(os.path.join(d, "sub"))
                 for name, text in files.items():
                     open(os.path.join(d, name), "w").write(text)
                 case0 = {"files": files, "flattened": flat.text(), "features": sorted(feats), "ignore_case": ic}
